@@ -69,6 +69,8 @@ StepBad(e, A, X) ==
              \/ ("pub" \in DOMAIN e /\ e.pub.next # (IF reg = {} THEN 0 - 1 ELSE MinOf({oDl[f] : f \in reg})))
              \/ (e.op = "delay" /\ e.val # (IF oNow + e.d >= INF THEN INF ELSE oNow + e.d))
       c17 == \/ ("term" \in DOMAIN e /\ e.term # SetToSortedSeq({f \in Slots : A[f] = "done"}))
+             \* threaded runs report is_terminated() of the polled future only
+             \/ ("fterm" \in DOMAIN e /\ e.op = "poll" /\ e.fterm # (A[e.f] = "done"))
              \/ (e.op = "poll_done" /\ e.res # "panic")
       c18 == "alloc" \in DOMAIN e /\ e.alloc # 0
   IN (IF c01 THEN {"C01"} ELSE {}) \cup (IF c15 THEN {"C15"} ELSE {})
